@@ -738,6 +738,12 @@ func randomCodecPlan(g *val.Gen, mt protoreflect.MessageType, mode string, emit 
 			emit(Op{Op: "size", Det: true, Tag: "rt-history"})
 			emit(Op{Op: "roundtrip", Det: true, Tag: "rt-history"})
 		}
+		// ... then the nested messages are emptied in place, then the whole message
+		for _, ev := range []J{emptyNested(proj.Project(cur.ProtoReflect(), proj.WrapNone)), {"f": J{}, "u": []int{}}} {
+			emit(Op{Op: "sync", V: ev, Tag: "rt-history"})
+			emit(Op{Op: "size", Det: true, Tag: "rt-history"})
+			emit(Op{Op: "roundtrip", Det: true, Tag: "rt-history"})
+		}
 		emit(Op{Op: "load", T: t, V: v})
 	}
 	// (not in lib mode: proto.Merge INTO a message holding nil map values / list elements panics
@@ -910,6 +916,45 @@ func cmdCodec(args []string) {
 }
 
 var _ = reflect.TypeOf
+
+// emptyNested returns the projected value j with every directly nested message value (singular
+// fields, list elements, map values) replaced by the empty message; scalars stay.
+func emptyNested(j J) J {
+	out := J{"f": J{}, "u": j["u"]}
+	f, _ := j["f"].(J)
+	empty := func() J { return J{"f": J{}, "u": []int{}} }
+	isMsg := func(a any) bool { m, ok := a.(J); _, hf := m["f"]; return ok && hf }
+	for k, v := range f {
+		switch t := v.(type) {
+		case J:
+			if isMsg(t) {
+				out["f"].(J)[k] = empty()
+			} else {
+				out["f"].(J)[k] = t
+			}
+		case []any:
+			var l []any
+			for _, e := range t {
+				switch ee := e.(type) {
+				case J:
+					if isMsg(ee) {
+						l = append(l, empty())
+					} else if vv, ok := ee["v"].(J); ok && isMsg(vv) {
+						l = append(l, J{"k": ee["k"], "v": empty()})
+					} else {
+						l = append(l, ee)
+					}
+				default:
+					l = append(l, e)
+				}
+			}
+			out["f"].(J)[k] = l
+		default:
+			out["f"].(J)[k] = v
+		}
+	}
+	return out
+}
 
 // msgDepth is the number of message levels below m (0 for a message without populated message fields).
 func msgDepth(m protoreflect.Message) int {
